@@ -69,7 +69,7 @@ def mon_c04(run):
                 v.append(('late-completion', f'request {k} completed at {r["done"]["t"]} ms, last event of its final attempt at {last} ms, timeout {T} ms'))
     # silent inverter: exactly retries+1 identical transmissions one timeout apart, failure one timeout after the last
     letters = sc.get('letters', '')
-    if seq and not sc.get('connects') and (letters == '' or set(letters) == {'D'}) and sc.get('default') == 'D':
+    if seq and not sc.get('connects') and (len(letters) == 0 or all(l == 'D' for l in letters)) and sc.get('default') == 'D':
         for k, r in reqs.items():
             ts = [s['t'] for s in r['sends']]
             want = [ts[0] + i * T for i in range(R + 1)] if ts else []
